@@ -197,7 +197,7 @@ def go_test(mod, pkg_rel, pkgname, harness_files, run, out_dir, env_extra=None, 
     """Compile /repo's CURRENT working tree of package `pkg_rel` (relative to the module root) together
     with the harness test files (injected with -overlay, build tag verif) and run test `run`."""
     os.makedirs(out_dir, exist_ok=True)
-    for f in ("in.txt", "impl.txt", "oracle.jsonl", "model.txt"):
+    for f in ("in.txt", "impl.txt", "oracle.jsonl", "model.txt", "attempt.jsonl"):
         p = os.path.join(out_dir, f)
         if os.path.exists(p):
             os.remove(p)
